@@ -35,7 +35,10 @@ structure St where
 def indef := indefAmd64
 
 def newLoop (a : KV) : LoopSt :=
-  if a.str "loop" "direct" == "pid" then
+  if a.str "loop" "direct" == "piddefault" then
+    -- control_loop.DefaultPidConfig (regenerated fact `fact_default_pid`): 0.3 / 0.02 / 0.005
+    .pid { p := F64.ofRat (3/10), i := F64.ofRat (2/100), d := F64.ofRat (5/1000) }
+  else if a.str "loop" "direct" == "pid" then
     .pid { p := a.f64 "p" F64.zero, i := a.f64 "i" F64.zero, d := a.f64 "d" F64.zero }
   else .direct (a.optInt "m")
 
